@@ -89,7 +89,7 @@ func TestC39(t *testing.T) {
 	tab := &addrTable{byAddr: map[string]Triple{}}
 
 	// ---------------- pure part
-	nPure := c.N(400, 1500)
+	nPure := c.N(400, 5000)
 	for i := 0; i < nPure; i++ {
 		if c.SkipCase(i) {
 			continue
@@ -109,7 +109,7 @@ func TestC39(t *testing.T) {
 	}
 
 	// ---------------- stateful part
-	nSt := c.N(10, 24)
+	nSt := c.N(10, 70)
 	for i := 0; i < nSt; i++ {
 		id := 100000 + i
 		if c.SkipCase(id) {
